@@ -1,6 +1,7 @@
 """Optional cache of the results of the two expensive rules (NF-4, PERM-1), used by the self-validation battery only
-(environment J2M_RULE_CACHE=<directory>).  The key is a digest of every source the result depends on: all modules of the
-analysed package and the analyser's own sources.  The registered check commands do not set the variable and always compute."""
+(environment J2M_RULE_CACHE=<directory>).  The key is a digest of the sources the result depends on: the modules the evaluation
+starts from (type IR, generator, registry, utils), every other module it read a function from (checked on a hit) and the
+analyser's own sources.  The registered check commands do not set the variable and always compute."""
 from __future__ import annotations
 
 import glob
@@ -14,11 +15,31 @@ from .report import RuleResult
 HERE = os.path.dirname(os.path.abspath(__file__))
 
 
+CORE = ("json_to_models/generator.py", "json_to_models/registry.py", "json_to_models/utils.py", "json_to_models/dynamic_typing")
+
+
+def _file_digest(path: str) -> str:
+    with open(path, "rb") as fh:
+        return hashlib.sha256(fh.read()).hexdigest()
+
+
+def _core_files(root: str):
+    out = []
+    for c in CORE:
+        p = os.path.join(root, c)
+        if os.path.isdir(p):
+            out += sorted(glob.glob(os.path.join(p, "**", "*.py"), recursive=True))
+        elif os.path.isfile(p):
+            out.append(p)
+    return out
+
+
 def _digest(root: str, name: str, tier: str) -> str:
+    """Key: the modules the two evaluated rules start from (the type IR, the generator, the registry) and the analyser itself.  A
+    module outside this core matters only if the evaluation reached it; those are recorded with the entry and checked on a hit."""
     h = hashlib.sha256()
     h.update(f"{name}|{tier}|".encode())
-    files = sorted(glob.glob(os.path.join(root, "json_to_models", "**", "*.py"), recursive=True)) + \
-        sorted(glob.glob(os.path.join(HERE, "*.py"))) + sorted(glob.glob(os.path.join(HERE, "rules", "*.py")))
+    files = _core_files(root) + sorted(glob.glob(os.path.join(HERE, "*.py"))) + sorted(glob.glob(os.path.join(HERE, "rules", "*.py")))
     for f in files:
         h.update(os.path.relpath(f, root if f.startswith(root) else HERE).encode())
         with open(f, "rb") as fh:
@@ -35,12 +56,21 @@ def cached(ctx, name: str, compute: Callable[[], RuleResult]) -> RuleResult:
     if os.path.isfile(p):
         try:
             with open(p, "rb") as fh:
-                return pickle.load(fh)
+                rr, consulted = pickle.load(fh)
+            if all(os.path.isfile(os.path.join(ctx.root, rel)) and _file_digest(os.path.join(ctx.root, rel)) == dg for rel, dg in consulted.items()):
+                return rr
         except Exception:
             pass
     rr = compute()
+    # modules outside the core that the evaluation read a function from
+    core = {os.path.relpath(f, ctx.root) for f in _core_files(ctx.root)}
+    consulted = {}
+    for k in getattr(rr, "analysed", []) or []:
+        rel = k.split("::", 1)[0]
+        if rel not in core and os.path.isfile(os.path.join(ctx.root, rel)):
+            consulted[rel] = _file_digest(os.path.join(ctx.root, rel))
     tmp = p + f".{os.getpid()}"
     with open(tmp, "wb") as fh:
-        pickle.dump(rr, fh)
+        pickle.dump((rr, consulted), fh)
     os.replace(tmp, p)
     return rr
